@@ -448,6 +448,35 @@ func init() {
 			Val{T: errType(), L: []string{ite(okc, "0", e.L[0]), ite(okc, "0", e.L[1])}})
 	}
 
+	// ---- slices / strings helpers (deterministic functions of their arguments) ----
+	s["slices.Contains"] = func(ex *Exec, fr *Frame, st *State, c *callCtx) Val {
+		return boolV(ex.def("contains", sBool, ex.containsTerm(st, c.args[0], c.args[1])))
+	}
+	s["strings.CutSuffix"] = func(ex *Exec, fr *Frame, st *State, c *callCtx) Val {
+		cut := app(ex.declFun("uf|hassuffix", []string{sStr, sStr}, sBool), c.args[0].L[0], c.args[1].L[0])
+		before := app(ex.declFun("uf|cutsuffix", []string{sStr, sStr}, sStr), c.args[0].L[0], c.args[1].L[0])
+		return tup(Val{T: types.Typ[types.String], L: []string{ite(cut, before, c.args[0].L[0])}}, boolV(cut))
+	}
+	s["strings.HasSuffix"] = func(ex *Exec, fr *Frame, st *State, c *callCtx) Val {
+		return boolV(app(ex.declFun("uf|hassuffix", []string{sStr, sStr}, sBool), c.args[0].L[0], c.args[1].L[0]))
+	}
+	s["strings.TrimSuffix"] = func(ex *Exec, fr *Frame, st *State, c *callCtx) Val {
+		cut := app(ex.declFun("uf|hassuffix", []string{sStr, sStr}, sBool), c.args[0].L[0], c.args[1].L[0])
+		before := app(ex.declFun("uf|cutsuffix", []string{sStr, sStr}, sStr), c.args[0].L[0], c.args[1].L[0])
+		return Val{T: types.Typ[types.String], L: []string{ite(cut, before, c.args[0].L[0])}}
+	}
+	s["strings.ToLower"] = func(ex *Exec, fr *Frame, st *State, c *callCtx) Val {
+		return Val{T: types.Typ[types.String], L: []string{app(ex.declFun("uf|tolower", []string{sStr}, sStr), c.args[0].L[0])}}
+	}
+
+	// ---- miekg/dns ----
+	s["(*github.com/miekg/dns.Msg).SetRcode"] = func(ex *Exec, fr *Frame, st *State, c *callCtx) Val {
+		// fills the receiver as a reply to the request and returns the receiver
+		pt := c.args[0].T.Underlying().(*types.Pointer)
+		ex.storeDecoded(st, pt.Elem(), c.args[0].L[0])
+		return Val{T: c.results().At(0).Type(), L: []string{c.args[0].L[0]}}
+	}
+
 	// ---- net/url, strconv ----
 	s["net/url.Parse"] = func(ex *Exec, fr *Frame, st *State, c *callCtx) Val {
 		ref := ex.newRef(st, "url")
@@ -720,4 +749,23 @@ func (ex *Exec) storeDecoded(st *State, T types.Type, ref string) {
 	}
 	ex.storeObj(st, T, ref, v)
 	ex.modActive = savedActive
+}
+
+
+// containsTerm: "x is an element of slice s" as a function of the slice contents (scalar elements).
+func (ex *Exec) containsTerm(st *State, s Val, x Val) string {
+	sl, ok := s.T.Underlying().(*types.Slice)
+	if !ok {
+		return ex.fresh("contains", sBool)
+	}
+	E := sl.Elem()
+	ls := flatten(E)
+	if len(ls) != 1 || len(x.L) != 1 {
+		return ex.fresh("contains", sBool)
+	}
+	k := memKey(E, ls[0], 1)
+	srt := sArr(sInt, sArr(bv64, ls[0].Sort))
+	mem := sel(ex.heapGet(st, k, srt), s.L[0])
+	f := ex.declFun("uf|contains|"+sortKey(ls[0].Sort), []string{sArr(bv64, ls[0].Sort), bv64, bv64, ls[0].Sort}, sBool)
+	return app(f, mem, s.L[1], s.L[2], x.L[0])
 }
